@@ -53,4 +53,64 @@ theorem accessors_no_fault (x : Go.Bytes) (h : 4 ≤ x.length) :
   · unfold p2pke.Message.HeaderBytes; rw [e1]
   · unfold p2pke.Message.Body; rw [e2]
 
+/-- the header counter of a message of at least four bytes -/
+def counterOf (x : Go.Bytes) : Nat :=
+  match x with
+  | b0 :: b1 :: b2 :: b3 :: _ => ((b0.toNat * 256 + b1.toNat) * 256 + b2.toNat) * 256 + b3.toNat
+  | _ => 0
+
+theorem counterOf_lt (x : Go.Bytes) : counterOf x < 2 ^ 32 := by
+  unfold counterOf
+  split
+  · rename_i b0 b1 b2 b3 _
+    have := b0.toNat_lt; have := b1.toNat_lt; have := b2.toNat_lt; have := b3.toNat_lt
+    omega
+  · decide
+
+theorem getNonce_eq (x : Go.Bytes) (h : 4 ≤ x.length) :
+    p2pke.Message.GetNonce x = .ok (UInt32.ofNat (counterOf x)) := by
+  unfold p2pke.Message.GetNonce
+  have e1 : Go.slice x 0 4 = .ok (x.take 4) := Go.slice_to _ 4 h
+  rw [e1]
+  match x, h with
+  | b0 :: b1 :: b2 :: b3 :: rest, _ => rfl
+
+/-- the three classifiers of p2pke.go on every byte string: no faults, and what they answer -/
+theorem classify_eq (x : Go.Bytes) :
+    p2pke.IsInitHello x = .ok (decide (4 ≤ x.length ∧ counterOf x = 0)) ∧
+    p2pke.IsRespHello x = .ok (decide (4 ≤ x.length ∧ counterOf x = 1)) ∧
+    p2pke.IsPostHandshake x = .ok (decide (4 ≤ x.length ∧ 16 ≤ counterOf x)) := by
+  have hc := counterOf_lt x
+  have hnat : (UInt32.ofNat (counterOf x)).toNat = counterOf x := by
+    simp only [UInt32.toNat_ofNat']; omega
+  unfold p2pke.IsInitHello p2pke.IsRespHello p2pke.IsPostHandshake
+  rw [parseMessage_eq]
+  by_cases h : x.length < 4
+  · have : ¬ 4 ≤ x.length := by omega
+    simp [h, this]
+  · have h4 : 4 ≤ x.length := by omega
+    simp only [h, if_false, bind_ok, Option.isNone_none, if_true, getNonce_eq x h4, pure_eq, h4, true_and]
+    refine ⟨?_, ?_, ?_⟩
+    · congr 1; apply decide_eq_decide.mpr
+      rw [← UInt32.toNat_inj, hnat]; rfl
+    · congr 1; apply decide_eq_decide.mpr
+      rw [← UInt32.toNat_inj, hnat]; rfl
+    · congr 1; apply decide_eq_decide.mpr
+      rw [ge_iff_le, UInt32.le_iff_toNat_le, hnat]; rfl
+
+theorem isHello_eq (x : Go.Bytes) :
+    p2pke.IsHello x = .ok (decide (4 ≤ x.length ∧ (counterOf x = 0 ∨ counterOf x = 1))) := by
+  unfold p2pke.IsHello
+  rw [(classify_eq x).1]
+  simp only [bind_ok]
+  by_cases h0 : 4 ≤ x.length ∧ counterOf x = 0
+  · simp [h0]
+  · simp only [h0, decide_false, Bool.not_false, if_true, (classify_eq x).2.1, bind_ok, pure_eq]
+    congr 1; apply decide_eq_decide.mpr
+    constructor
+    · intro h; exact ⟨h.1, Or.inr h.2⟩
+    · intro h; rcases h.2 with e | e
+      · exact absurd ⟨h.1, e⟩ h0
+      · exact ⟨h.1, e⟩
+
 end P2PVerif.SrcKe
